@@ -19,6 +19,7 @@ Violated(r) ==
     LET c == r.cmd  s == StateOf(r.s)  t == StateOf(r.t) IN
          If(K_CleanRemovesData(c, s, t), "CleanRemovesData")
     \cup If(K_CleanNothingElse(c, s, t, r.modeSame), "CleanNothingElse")
+    \cup If(K_CleanKeepsNonEmptyDirs(c, s, t), "CleanKeepsNonEmptyDirs")
     \cup If(K_ModeOnlyMode(c, s, t), "ModeOnlyMode")
     \cup If(K_NoOpWhenSame(c, s, t, r.modeSame), "NoOpWhenSame")
     \cup If(K_Records(c, s, <<r.env.w, r.env.d>>, <<r.lib.w, r.lib.d>>, Days(r)), "Records")
